@@ -585,6 +585,7 @@ func init() {
 	}
 	addSyncIntrinsics()
 	addBinaryIntrinsics()
+	addXzIntrinsics()
 }
 
 func (in *Interp) mkError(msg string) value {
